@@ -587,6 +587,40 @@ Proof.
     apply Z.eqb_eq. rewrite Z.add_0_r. exact L.
 Qed.
 
+(* ... and for EVERY group of a message, not only the first: the loop outside a group, whatever sum an earlier group left
+   behind, writes the next group with the checksum of that group alone and is outside a group again afterwards; so the
+   statement applies again to `post` (a second, third ... group). *)
+Lemma roland_checksum_every_group pre body post s :
+  Forall (fun x => x <> -1) pre -> no_marker body ->
+  let cs := roland_checksum (map as_u8 body) in
+  sysex_sum_loop (pre ++ [-1] ++ body ++ [-2] ++ post) false s
+    = map as_u8 pre ++ map as_u8 body ++ [cs] ++ sysex_sum_loop post false (zsum body) /\
+  (zsum (map as_u8 body) + cs) mod 128 = 0.
+Proof.
+  intros Hp Hb cs.
+  assert (L : (zsum (map as_u8 body) + cs) mod 128 = 0).
+  { unfold cs, roland_checksum. fold (zsum (map as_u8 body)). lia. }
+  split; [|exact L].
+  rewrite sum_loop_before by assumption. f_equal.
+  cbn [app sysex_sum_loop andb]. cbn [Z.eqb Pos.eqb]. rewrite sum_loop_inside by assumption. f_equal.
+  cbn [app sysex_sum_loop andb]. cbn [Z.eqb Pos.eqb]. f_equal.
+  rewrite Z.add_0_l. rewrite !land_127. unfold cs, roland_checksum. fold (zsum (map as_u8 body)).
+  rewrite zsum_u8_mod. apply as_u8_small. lia.
+Qed.
+(* two groups in one message, spelled out *)
+Lemma roland_checksum_two_groups time pre b1 mid b2 post :
+  Forall (fun x => x <> -1) pre -> no_marker b1 -> Forall (fun x => x <> -1) mid -> no_marker b2 ->
+  ev_sysex time (pre ++ [-1] ++ b1 ++ [-2] ++ mid ++ [-1] ++ b2 ++ [-2] ++ post) true
+    = ev_sysex_raw time (map as_u8 pre ++ map as_u8 b1 ++ [roland_checksum (map as_u8 b1)] ++
+                         map as_u8 mid ++ map as_u8 b2 ++ [roland_checksum (map as_u8 b2)] ++ sysex_sum_loop post false (zsum b2)).
+Proof.
+  intros Hp H1 Hm H2. unfold ev_sysex. f_equal.
+  destruct (roland_checksum_every_group pre b1 (mid ++ [-1] ++ b2 ++ [-2] ++ post) 0 Hp H1) as [E1 _].
+  rewrite E1. do 3 f_equal.
+  destruct (roland_checksum_every_group mid b2 post (zsum b1) Hm H2) as [E2 _].
+  exact E2.
+Qed.
+
 Lemma map_as_u8_bytes l : Forall (fun x => 0 <= x <= 255) l -> map as_u8 l = l.
 Proof. induction 1; cbn [map]; [reflexivity|]. rewrite as_u8_small by lia. f_equal. assumption. Qed.
 Lemma bytes_no_marker l : Forall (fun x => 0 <= x <= 255) l -> no_marker l.
